@@ -30,10 +30,10 @@ ASSUMPTIONS = [
     'the sentinel position -1 is never queried',
 ]
 COMPONENTS = {
-    'real': ['AlleleResolver.__init__ flag handling', 'fetchChromosome', 'write_cache/read_cached', 'getAllelesAt', 'has_location', 'pysam.VariantFile/tabix', 'cache files on a real file system (scratch)'],
-    'stub': ['crash injector for cache-writing lifetimes: forked child, sys.settrace line events inside write_cache with os._exit(137), or RLIMIT_FSIZE'],
+    'real': ['Molecule.allele (likelihood assignment, the DA tag) of one-read molecules tagged with the resolver under test', 'AlleleResolver.__init__ flag handling', 'fetchChromosome', 'write_cache/read_cached', 'getAllelesAt', 'has_location', 'pysam.VariantFile/tabix', 'cache files on a real file system (scratch)'],
+    'stub': ['transient EMFILE on the n-th open of a cache file for reading (alleleTools.gzip seam)', 'crash injector for cache-writing lifetimes: forked child, sys.settrace line events inside write_cache with os._exit(137), or RLIMIT_FSIZE'],
 }
-REQUIRED_PROBES = ['lifetime_died_while_writing_cache', 'cache_file_read_in_later_lifetime', 'evicted_contig_revisited', 'cache_without_lazy', 'absent_contig_query', 'nonempty_answer', 'config_changed_between_lifetimes']
+REQUIRED_PROBES = ['molecule_tagged', 'lookup_hit_by_cache_read_fault', 'lifetime_died_while_writing_cache', 'cache_file_read_in_later_lifetime', 'evicted_contig_revisited', 'cache_without_lazy', 'absent_contig_query', 'nonempty_answer', 'config_changed_between_lifetimes']
 BASES = 'ACGT'
 
 
@@ -127,7 +127,22 @@ def generate(seed, tier):
                     pos0 = h.randint(0, 70)
                     base = h.choice(BASES)
                 queries.append([contigs[ci][0], max(0, pos0), base, h.choice(['get', 'get', 'has'])])
+            if sites and h.random() < 0.3:
+                # a molecule (one read) tagged with this resolver: the DA tag is built on the same lookups, and tagging must not change the table
+                r0 = h.choice(sites)
+                start = max(0, r0[1] - 1 - h.randint(0, 6))
+                seq = ''.join(h.choice(BASES) for _ in range(h.randint(8, 25)))
+                near = [r for r in sites if start <= r[1] - 1 < start + len(seq)]
+                sl = list(seq)
+                for r in near:
+                    sl[r[1] - 1 - start] = h.choice([r[2][0]] + [a[0] for a in r[3]])
+                queries.append([contigs[ci][0], start, ''.join(sl), 'mol'])
         lifetimes.append({'lazy': lazy, 'cache': cache, **cfg, 'queries': queries})
+    for life in lifetimes:
+        if life['cache'] and st.faults.random() < 0.25:
+            # transient failure (EMFILE) of the n-th open of a cache file for reading; the lookup that hits it may come back empty,
+            # every later lookup must be right again
+            life['read_fault'] = st.faults.randint(0, 2)
     if st.faults.random() < 0.3:
         # a lifetime that dies (kill at a line of write_cache) or hits a file-size limit (EFBIG) WHILE it writes the cache;
         # only what is on disk survives; the lifetimes after it must still answer like the eager resolver
@@ -191,6 +206,39 @@ def _model(vcf, cfg, chrom, pos0, base):
     if cfg['ignore'] and any([ref, b] in cfg['ignore'] for b in carried):
         return None
     return sorted(carried.get(base)) if base in carried else None
+
+
+def _molecule_allele(ar, ref, vcf, chrom, start, seq):
+    """(allele assigned to a one-read molecule tagged with `ar`, expected allele from read-only lookups on the eager reference)"""
+    import pysam
+    import collections
+    from singlecellmultiomics.molecule import Molecule
+    from singlecellmultiomics.fragment import Fragment
+    header = pysam.AlignmentHeader.from_dict({'HD': {'VN': '1.6'}, 'SQ': [{'SN': c, 'LN': l} for c, l in vcf['contigs']] + [{'SN': 'cX', 'LN': 1000}]})
+    r = pysam.AlignedSegment(header)
+    r.query_name = 'm'
+    r.query_sequence = seq
+    r.query_qualities = pysam.qualitystring_to_array('I' * len(seq))
+    r.flag = 0
+    r.reference_id = header.get_tid(chrom)
+    r.reference_start = start
+    r.mapping_quality = 60
+    r.cigartuples = [(0, len(seq))]
+    r.set_tag('SM', 'cell')
+    r.set_tag('RX', 'ACG')
+    m = Molecule(Fragment([r, None]), allele_resolver=ar)
+    got = m.allele
+    score = collections.Counter()
+    for i, b in enumerate(seq):
+        hit = ref.getAllelesAt(chrom, start + i, b)
+        if hit is not None and len(hit) == 1:
+            score[sorted(hit)[0]] += 1
+    if not score:
+        return got, None
+    top = score.most_common()
+    if len(top) > 1 and top[0][1] == top[1][1]:
+        return got, 'ambiguous'
+    return got, top[0][0]
 
 
 def _crashing_lifetime(path, cfg, life, mk):
@@ -289,7 +337,27 @@ def execute(case):
             visited = []
             used_cache = False
             revisit = False
+            import singlecellmultiomics.alleleTools.alleleTools as at_mod
+            real_gzip = at_mod.gzip
+            fault_state = {'n': 0, 'fired_now': False}
+            if life.get('read_fault') is not None:
+                class _Gz:
+                    def __getattr__(self, name):
+                        return getattr(real_gzip, name)
+
+                    @staticmethod
+                    def open(path, mode='rb', *a, **k):
+                        if 'r' in mode:
+                            i = fault_state['n']
+                            fault_state['n'] += 1
+                            if i == life['read_fault']:
+                                fault_state['fired_now'] = True
+                                faults_fired['cache-read-EMFILE'] = faults_fired.get('cache-read-EMFILE', 0) + 1
+                                raise OSError(24, 'Too many open files (injected)', path)
+                        return real_gzip.open(path, mode, *a, **k)
+                at_mod.gzip = _Gz()
             for qi, (chrom, pos, base, kind) in enumerate(life['queries']):
+                fault_state['fired_now'] = False
                 if chrom == 'cX':
                     probe('absent_contig_query')
                 if visited and chrom != visited[-1] and chrom in visited:
@@ -297,7 +365,10 @@ def execute(case):
                 if not visited or visited[-1] != chrom:
                     visited.append(chrom)
                 try:
-                    if kind == 'get':
+                    if kind == 'mol':
+                        got, want = _molecule_allele(ar, ref, vcf, chrom, pos, base)
+                        probe('molecule_tagged')
+                    elif kind == 'get':
                         got = _norm(ar.getAllelesAt(chrom, pos, base))
                         want = _norm(ref.getAllelesAt(chrom, pos, base))
                     else:
@@ -309,6 +380,11 @@ def execute(case):
                     log.add('q', li, qi, 'raised')
                     continue
                 log.add('q', li, qi, got)
+                if fault_state['fired_now']:
+                    probe('lookup_hit_by_cache_read_fault')
+                    continue        # the lookup that met the transient failure may come back empty (the error is printed and swallowed by design)
+                if kind == 'mol' and want == 'ambiguous':
+                    continue
                 if got:
                     probe('nonempty_answer')
                 mode = ('cache' if life['cache'] else 'nocache') + ('+lazy' if life['lazy'] else '+eager')
@@ -323,6 +399,7 @@ def execute(case):
                     if m != 'unknown' and want != m:
                         viol.append({'property': PROPERTY, 'class': 'eager-disagrees-with-vcf-model', 'signature': 'get',
                                      'detail': {'lifetime': li, 'query': [chrom, pos, base, kind], 'eager': want, 'model': m}})
+            at_mod.gzip = real_gzip
             cache_after = set(os.listdir(cache_dir)) if os.path.isdir(cache_dir) else set()
             if life['cache'] and life['lazy'] and any(f.split('.')[0].split('_')[0] in visited for f in cache_before):
                 used_cache = True
